@@ -73,8 +73,8 @@ class Ctx:
     def model(self, lines):
         """send protocol lines (without the property prefix) to the Lean driver"""
         if self._driver is None:
-            self._driver = lean.Driver()
-        return self._driver.ask(["%s %s" % (self.pid, l) for l in lines])
+            self._driver = lean.Driver(self.pid)
+        return self._driver.ask(list(lines))
 
     def diff(self, cases, lines, impl_outs, tie="T2"):
         """compare implementation outputs with the model's replies, case by case"""
